@@ -22,10 +22,24 @@ package tscommon
 //@   decreases 2*spec.remainingM(ms.messages) + ite(msg.Desc.IsMapEntry(), 1, 0)
 //@   ensures grows: forall s string :: inDom(old(ms.messages), s) ==> inDom(ms.messages, s)
 //@   ensures measure: spec.remainingM(ms.messages) <= spec.remainingM(old(ms.messages))
+//@   ensures enums_grow: forall s string :: inDom(old(ms.enums), s) ==> inDom(ms.enums, s)
+// every type name a declaration can mention gets a declaration (C07): the message itself (unless it is rendered inline:
+// Timestamp, map entry), and - when the message is visited for the first time - the enum and message types of all its
+// fields, including the value type of a map entry
+//@   ensures self_declared: string(msg.Desc.FullName()) == "google.protobuf.Timestamp" || msg.Desc.IsMapEntry() || inDom(ms.messages, string(msg.Desc.FullName()))
+//@   ensures field_enums_declared: !inDom(old(ms.messages), string(msg.Desc.FullName())) && string(msg.Desc.FullName()) != "google.protobuf.Timestamp" ==> (forall i int :: 0 <= i && i < len(msg.Fields) && msg.Fields[i].Desc.Kind() == protoreflect.EnumKind && msg.Fields[i].Enum != nil ==> inDom(ms.enums, string(msg.Fields[i].Enum.Desc.FullName())))
+//@   ensures field_messages_declared: !inDom(old(ms.messages), string(msg.Desc.FullName())) && string(msg.Desc.FullName()) != "google.protobuf.Timestamp" ==> (forall i int :: 0 <= i && i < len(msg.Fields) && msg.Fields[i].Desc.Kind() == protoreflect.MessageKind && msg.Fields[i].Message != nil ==> string(msg.Fields[i].Message.Desc.FullName()) == "google.protobuf.Timestamp" || msg.Fields[i].Message.Desc.IsMapEntry() || inDom(ms.messages, string(msg.Fields[i].Message.Desc.FullName())))
 //@   loop 1 invariant forall s string :: inDom(old(ms.messages), s) ==> inDom(ms.messages, s)
 //@   loop 1 invariant spec.remainingM(ms.messages) <= spec.remainingM(old(ms.messages))
+//@   loop 1 invariant forall s string :: inDom(old(ms.enums), s) ==> inDom(ms.enums, s)
+//@   loop 1 invariant forall a int :: 0 <= a && a < _i1 && msg.Fields[a].Desc.Kind() == protoreflect.EnumKind && msg.Fields[a].Enum != nil ==> inDom(ms.enums, string(msg.Fields[a].Enum.Desc.FullName()))
+//@   loop 1 invariant forall a int :: 0 <= a && a < _i1 && msg.Fields[a].Desc.Kind() == protoreflect.MessageKind && msg.Fields[a].Message != nil ==> string(msg.Fields[a].Message.Desc.FullName()) == "google.protobuf.Timestamp" || msg.Fields[a].Message.Desc.IsMapEntry() || inDom(ms.messages, string(msg.Fields[a].Message.Desc.FullName()))
 //@   loop 2 invariant forall s string :: inDom(old(ms.messages), s) ==> inDom(ms.messages, s)
 //@   loop 2 invariant spec.remainingM(ms.messages) < spec.remainingM(old(ms.messages))
+//@   loop 2 invariant forall s string :: inDom(old(ms.enums), s) ==> inDom(ms.enums, s)
+//@   loop 2 invariant inDom(ms.messages, string(msg.Desc.FullName()))
+//@   loop 2 invariant forall a int :: 0 <= a && a < _i2 && msg.Fields[a].Desc.Kind() == protoreflect.EnumKind && msg.Fields[a].Enum != nil ==> inDom(ms.enums, string(msg.Fields[a].Enum.Desc.FullName()))
+//@   loop 2 invariant forall a int :: 0 <= a && a < _i2 && msg.Fields[a].Desc.Kind() == protoreflect.MessageKind && msg.Fields[a].Message != nil ==> string(msg.Fields[a].Message.Desc.FullName()) == "google.protobuf.Timestamp" || msg.Fields[a].Message.Desc.IsMapEntry() || inDom(ms.messages, string(msg.Fields[a].Message.Desc.FullName()))
 
 // callers reach this only behind annotations.IsRootUnwrap (exactly one field)
 //@ func RootUnwrapTSType(msg *protogen.Message) (r string)
@@ -35,6 +49,7 @@ package tscommon
 //@   requires enum != nil
 //@   modifies ms.enums
 //@   ensures inDom(ms.enums, string(enum.Desc.FullName()))
+//@   ensures enums_grow: forall s string :: inDom(old(ms.enums), s) ==> inDom(ms.enums, s)
 
 // ---- declared TypeScript types follow the documented wire form (C07) ----
 
